@@ -1,7 +1,35 @@
 from core import Unit as U
+CB = "secp256k1_count_bits_set"
+VER = "harness/C11/verify.c"
+VER_REPL = [CB, "secp256k1_surjection_compute_public_keys", "secp256k1_surjection_genmessage", "secp256k1_borromean_verify"]
+VER_FUNCS = ["secp256k1_surjectionproof_verify", "secp256k1_surjectionproof_n_used_inputs", "secp256k1_surjectionproof_n_total_inputs", "secp256k1_scalar_set_b32"]
+SJ_VERIFY_LOOP = {"secp256k1_surjectionproof_verify": {"for (i = 0; i < n_used_pubkeys; i++)": {
+    "assigns": "i, __CPROVER_object_whole(borromean_s)",
+    "invariants": "i <= n_used_pubkeys && (verif_sj_bad ==> i <= verif_sj_gi) && (verif_sj_gi < i ==> (borromean_s[verif_sj_gi].d[0] == verif_sj_sx.d[0] && borromean_s[verif_sj_gi].d[1] == verif_sj_sx.d[1] && borromean_s[verif_sj_gi].d[2] == verif_sj_sx.d[2] && borromean_s[verif_sj_gi].d[3] == verif_sj_sx.d[3]))",
+    "decreases": "n_used_pubkeys - i"}}}
 UNITS = [
-    U("C11.parse", ["C11", "C07"], "harness/C11/parse.c", "h_sjp_parse", replace=["memcpy"],
-      functions=["secp256k1_surjectionproof_parse", "secp256k1_count_bits_set"], timeout=600, min_obl=20, unwind=34,
-      closed_by="full unwinding: bitmap is at most 32 bytes (n_inputs <= 256 is checked first); unwinding assertions prove the bound",
+    U("C11.parse", ["C11", "C07"], "harness/C11/parse.c", "h_sjp_parse", replace=["memcpy", CB],
+      functions=["secp256k1_surjectionproof_parse"], timeout=900, min_obl=20, unwind=34,
+      closed_by="no loop left in the function under contract (count_bits_set replaced by its proved contract); spec loops unwound",
       note="accept set equals the canonical-encoding spec for all byte strings of length <= 9000; memcpy replaced by the bounds+ghost-index contract"),
+    U("C11.parse_content", ["C11"], "harness/C11/parse.c", "h_sjp_parse", replace=["memcpy", CB], defs=["EL_CONTENT"], tier="thorough",
+      functions=["secp256k1_surjectionproof_parse"], timeout=3600, min_obl=20, unwind=34,
+      note="as C11.parse plus byte-for-byte content of bitmap and signature fields (ghost index into the 8 KiB field)"),
+    U("C11.count_bits", ["C11", "C07"], "harness/C11/count_bits.c", "h_count_bits", enforce=[CB], tier="thorough", solver="cadical",
+      functions=[CB], timeout=1800, min_obl=5, unwind=34,
+      closed_by="full unwinding: count <= 32 (callers pass ceil(n_inputs/8), n_inputs <= 256)",
+      note="population-count equivalence is a hard SAT instance (140-220 s)"),
+    U("C11.serialize", ["C11", "C07"], "harness/C11/serialize.c", "h_sjp_serialize", replace=["memcpy", CB],
+      functions=["secp256k1_surjectionproof_serialize", "secp256k1_surjectionproof_serialized_size", "secp256k1_surjectionproof_n_total_inputs", "secp256k1_surjectionproof_n_used_inputs"],
+      timeout=900, min_obl=20, unwind=34, note="every valid proof object and every capacity <= 9000"),
+    U("C11.roundtrip", ["C11"], "harness/C11/serialize.c", "h_sjp_roundtrip", replace=["memcpy", CB], defs=["EL_MEMCPY_EXACT32"], tier="thorough",
+      functions=["secp256k1_surjectionproof_parse", "secp256k1_surjectionproof_serialize"], timeout=5400, min_obl=20, unwind=34,
+      note="serialize(parse(b)) == b for every accepted b of length <= 9000 (1070 s measured)"),
+    U("C11.verify_gate_b8", ["C11", "C07"], VER, "h_sjp_verify", replace=VER_REPL, assumed=["secp256k1_borromean_verify"], defs=["EL_BOUND=8"],
+      functions=VER_FUNCS, timeout=900, min_obl=30, unwind=34, bounded="n_inputs<=8",
+      note="scalar loop unwound for proofs over at most 8 inputs: concrete counterexample (ring position, bytes) when a gate is broken"),
+    U("C11.verify_gate", ["C11", "C07"], VER, "h_sjp_verify", replace=VER_REPL, assumed=["secp256k1_borromean_verify"],
+      loop_contracts=SJ_VERIFY_LOOP, functions=VER_FUNCS, timeout=1800, min_obl=30, unwind=34, tier="thorough",
+      closed_by="loop contract on the scalar loop (engine-supplied, no /repo edit): invariant with ghost ring position, decreases clause",
+      note="every valid proof object (n_inputs <= 256, up to 256 used inputs) and any tag count"),
 ]
